@@ -338,7 +338,7 @@ func vfC19bGenObject(t *rapid.T, depth int) string {
 }
 
 func vfC19bObjectAt(t *rapid.T, d, depth int, ws func() string, val func(int) string) string {
-	n := rapid.IntRange(0, 3).Draw(t, "okeys")
+	n := rapid.SampledFrom([]int{0, 1, 1, 1, 2, 2, 3, 3}).Draw(t, "okeys")
 	seen := map[string]bool{}
 	var parts []string
 	for i := 0; i < n; i++ {
